@@ -189,6 +189,7 @@ func (f *frame) freshResults(sig *types.Signature, hint string) []Val {
 		t := sig.Results().At(i).Type()
 		n := vc.fresh(hint+".r", vc.sortOf(t))
 		f.assume(vc.typeFacts(n, t, f.st))
+		vc.pin(n, t)
 		out = append(out, Val{t: n})
 	}
 	return out
